@@ -12,7 +12,7 @@ import re
 
 import common as C
 
-SRC_FILES = ['src/order.rs', 'src/shape.rs', 'src/index.rs', 'src/lib.rs', 'src/arithmetic.rs', 'src/iter/iter_mut.rs', 'src/swap.rs']
+SRC_FILES = ['src/order.rs', 'src/shape.rs', 'src/index.rs', 'src/lib.rs', 'src/arithmetic.rs', 'src/iter/iter_mut.rs', 'src/swap.rs', 'src/iter.rs']
 GEN_DIR = os.path.join(C.BUILD, 'gen')
 
 # which kernel functions each property's theorems rest on
@@ -27,7 +27,9 @@ OBLIGATIONS = {
     'C04': ['AxisIndex_from_index', 'AxisIndex_is_out_of_bounds', 'AxisIndex_to_flattened', 'Matrix_major', 'Matrix_minor',
             'AxisShape_major', 'AxisShape_minor', 'AxisShape_major_stride', 'AxisShape_minor_stride'],
     'C05': ['Order_switch', 'Shape_transpose', 'AxisShape_transpose', 'AxisIndex_swap', 'AxisIndex_from_flattened', 'AxisIndex_to_flattened'],
-    'C06': ['AxisShape_major_stride', 'AxisShape_minor_stride', 'Matrix_major_stride', 'Matrix_minor_stride', 'Matrix_major', 'Matrix_minor'] + ITER_MACHINES,
+    'C06': ['AxisShape_major_stride', 'AxisShape_minor_stride', 'Matrix_major_stride', 'Matrix_minor_stride', 'Matrix_major', 'Matrix_minor',
+            'Matrix_iter_nth_major_axis_vector_unchecked', 'Matrix_iter_nth_minor_axis_vector_unchecked',
+            'Matrix_iter_nth_major_axis_vector', 'Matrix_iter_nth_minor_axis_vector'] + ITER_MACHINES,
     'C07': ['AxisIndex_swap', 'AxisIndex_from_flattened', 'AxisIndex_to_flattened'],
     'C08': ['Shape_size', 'Shape_try_to_axis_shape', 'Shape_to_axis_shape_unchecked', 'Matrix_check_size', 'AxisShape_size'],
     'C09': ['Shape_size', 'Shape_try_to_axis_shape', 'Shape_to_axis_shape_unchecked', 'Matrix_reshape', 'Matrix_size', 'AxisShape_size'],
